@@ -1,6 +1,7 @@
 import Lean.Data.Json
 import FinProtoc.Load
 import FinProtoc.SelfTest
+import FinProtoc.Proofs.RoundTripM
 /-!
 # Loading extracted self-tests (JSON from `/verif/tv/tests.py`) and reporting their outcome
 -/
@@ -71,18 +72,80 @@ def firstDiff (S : Schema) (fl : Flags) (t : Test) (reg : Registry) (fuel : Nat)
       | some (ds, _) =>
         let adj := adjFields S fl.storeBack t.fixups 0 p.fields vs ds
         let bad := (p.fields.zip (adj.zip ds)).filter fun (_, a, d) => !(a.beq d)
-        String.intercalate ", " (bad.map fun (f, _, _) => f.name)
+        -- a differing member that is itself computed = a missing top-level fix-up; otherwise the difference is inside it
+        String.intercalate ", " (bad.map fun (f, _, _) => f.name ++ (if isComputed f.kind && !f.rep then "(computed)" else "(nested)"))
       | none => ""
     | none => ""
   | _, _ => ""
 
+mutual
+/-- first reason why a sample is outside the round-trip domain `Wire.mVal` (diagnostics for `decode-fails`) -/
+def whyVal (S : Schema) (all : List Field) (env : List (String × Val)) (depth : Nat) : Bool → FKind → Val → Option String
+  | true, k, .list es => whyList S depth k es
+  | true, _, _ => some "repeated member is not a list"
+  | false, .obj pkt, .struct vs => match S.find pkt with | some p => whyFields S p.fields (depth + 1) p.fields [] vs | none => some "unknown packet"
+  | false, .matchOn key pairs, .dyn pkt vs =>
+    if !Wire.keyOk all env key pairs pkt then
+      some ((if depth = 0 then "top-level" else "nested") ++ "-key-does-not-select-payload")
+    else match S.find pkt with | some p => whyFields S p.fields (depth + 1) p.fields [] vs | none => some "unknown packet"
+  | false, k, v => if Wire.mVal S all env false k v then none else some ((if depth = 0 then "top-level" else "nested") ++ "-value-out-of-domain")
+def whyList (S : Schema) (depth : Nat) (k : FKind) : List Val → Option String
+  | [] => none
+  | v :: vs => match whyVal S [] [] depth false k v with | some r => some r | none => whyList S depth k vs
+def whyFields (S : Schema) (all : List Field) (depth : Nat) : List Field → List (String × Val) → List Val → Option String
+  | f :: fs, env, v :: vs =>
+    match whyVal S all env depth f.rep f.kind v with
+    | some r => some r
+    | none => whyFields S all depth fs (env ++ [(f.name, v)]) vs
+  | _, _, _ => none
+end
+
+def whyDecodeFails (S : Schema) (P : Prog) (fl : Flags) (t : Test) : String :=
+  match sampleVals S P fl t, S.find t.pkt with
+  | .ok vs, some p => (whyFields S p.fields 0 p.fields [] vs).getD "sample-in-domain"
+  | _, _ => ""
+
+/-- the packets a test's sample is built from, with the depth at which each is instantiated: the test's own packet at
+depth 0, object members / list elements / the FIRST target of every match field below (what the test emitters walk) -/
+def reach (S : Schema) : Nat → Nat → String → List (Nat × String × Bool × String)   -- (depth, packet, by value as an object member, member name)
+  | 0, _, _ => []
+  | fuel + 1, depth, pkt =>
+    match S.find pkt with
+    | none => []
+    | some p =>
+      p.fields.flatMap fun f =>
+        match f.kind with
+        | .obj q => (depth + 1, q, true, f.name) :: reach S fuel (depth + 1) q
+        | .matchOn _ pairs => (match pairs.head? with
+            | some (_, q) => (depth + 1, q, false, f.name) :: reach S fuel (depth + 1) q
+            | none => [])
+        | _ => []
+
+def hasMatch (S : Schema) (pkt : String) : Bool :=
+  match S.find pkt with | some p => p.fields.any (fun f => match f.kind with | .matchOn _ _ => true | _ => false) | none => false
+def hasComputed (S : Schema) (pkt : String) : Bool :=
+  match S.find pkt with | some p => p.fields.any (fun f => isComputed f.kind) | none => false
+
+/-- structural features of a test that the known defects of the test emitters depend on -/
+def features (S : Schema) (t : Test) : List String :=
+  let r := reach S 8 0 t.pkt
+  let names := r.map (·.2.1)
+  let members := r.map (·.2.2.2)
+  (if r.any (fun x => hasMatch S x.2.1) then ["nested-match"] else []) ++
+  (if r.any (fun x => hasComputed S x.2.1) then ["nested-computed"] else []) ++
+  -- the emitters name test locals after packets / members in one flat scope
+  (if names.eraseDups.length < names.length || names.contains t.pkt || members.eraseDups.length < members.length
+   then ["local-name-clash"] else []) ++
+  (if r.any (fun x => x.2.2.1 && hasMatch S x.2.1) then ["match-holder-by-value"] else [])
+
 def reportJ (S : Schema) (P : Prog) (fl : Flags) (fuel : Nat) (t : Test) : Json :=
-  Json.mkObj ([("name", (t.name : Json)), ("packet", (t.pkt : Json))] ++
+  Json.mkObj ([("name", (t.name : Json)), ("packet", (t.pkt : Json)), ("features", Json.arr ((features S t).map Json.str).toArray)] ++
     registries.flatMap fun (rn, reg) =>
       let sp := specRun S P fl reg fuel t
       let em := emittedRun S P fl reg fuel t
       [("spec_" ++ rn, (sp.text : Json)), ("emitted_" ++ rn, (em.text : Json)), ("ok_" ++ rn, (specOk S P fl reg fuel t : Json)),
        ("cls_" ++ rn, (em.cls : Json)),
-       ("diff_" ++ rn, (if sp == .mismatch then firstDiff S fl t reg fuel P else "" : Json))])
+       ("diff_" ++ rn, (if sp == .mismatch then firstDiff S fl t reg fuel P else "" : Json)),
+       ("why_" ++ rn, (if em == .decodeFails then whyDecodeFails S P fl t else "" : Json))])
 
 end FinProtoc.SelfTest
